@@ -1203,3 +1203,287 @@ Proof.
   destruct (Ha e (or_introl eq_refl)) as [(i & codes & Hi & _) | (i & f & s & p & a & b & Hi & _)];
     specialize (Hn i); rewrite Hi in Hn; exact Hn.
 Qed.
+
+(** * C03: every reply carries the query's id and question *)
+
+Lemma wire_fields m :
+  m_id (wire m) = m_id m /\ m_question (wire m) = m_question m /\ m_qr (wire m) = m_qr m
+  /\ m_opcode (wire m) = m_opcode m /\ m_rcode (wire m) = m_rcode m.
+Proof. unfold wire. destruct (map_last_opt _ _); repeat split. Qed.
+
+Lemma set_response_resp c rid m r :
+  c_resp (set_response c rid m) = Some r ->
+  m_id r = m_id m /\ m_qr r = m_qr m /\ m_question r = m_question m /\ m_rcode r = m_rcode m
+  /\ m_answer r = m_answer m /\ m_ns r = m_ns m.
+Proof.
+  unfold set_response. destruct (pop_opt (m_extra m)) as [[ex o]|]; cbn; intro H; inversion H; repeat split.
+Qed.
+
+Lemma set_response_some c rid m : exists r, c_resp (set_response c rid m) = Some r.
+Proof. unfold set_response. destruct (pop_opt (m_extra m)) as [[ex o]|]; cbn; eauto. Qed.
+
+Lemma hosts_reply_hdr h q r : hosts_reply h q = Some r ->
+  m_id r = m_id q /\ m_qr r = true /\ m_question r = firstn 1 (m_question q).
+Proof.
+  unfold hosts_reply. destruct (m_question q) as [|qu [|]] eqn:Eq; try discriminate.
+  destruct (negb (qclass qu =? class_inet) || negb ((qtype qu =? type_a) || (qtype qu =? type_aaaa))); [discriminate|].
+  destruct (h (qname qu)) as [v4 v6]. destruct (length v4 + length v6 =? 0)%nat; [discriminate|].
+  intro H. inversion H. unfold set_reply. rewrite Eq.
+  match goal with |- context [match ?a with [] => _ | _ => _ end] => destruct a end; repeat split.
+Qed.
+
+Lemma black_hole_reply_hdr v4 v6 q r : black_hole_reply v4 v6 q = Some r ->
+  m_id r = m_id q /\ m_qr r = true /\ m_question r = firstn 1 (m_question q).
+Proof.
+  unfold black_hole_reply. destruct (m_question q) as [|qu [|]] eqn:Eq; try discriminate.
+  destruct ((qtype qu =? type_a) && (0 <? length v4)%nat);
+    [intro H; inversion H; unfold set_reply; rewrite Eq; repeat split|].
+  destruct ((qtype qu =? type_aaaa) && (0 <? length v6)%nat);
+    [intro H; inversion H; unfold set_reply; rewrite Eq; repeat split|discriminate].
+Qed.
+
+Lemma arbitrary_reply_hdr z q r : arbitrary_reply z q = Some r ->
+  m_id r = m_id q /\ m_qr r = true /\ m_question r = firstn 1 (m_question q).
+Proof.
+  unfold arbitrary_reply. destruct (flat_map z (m_question q)); [discriminate|].
+  intro H. inversion H. repeat split.
+Qed.
+
+Lemma map_ttl_msg_hdr f m :
+  m_id (map_ttl_msg f m) = m_id m /\ m_qr (map_ttl_msg f m) = m_qr m /\ m_question (map_ttl_msg f m) = m_question m.
+Proof. repeat split. Qed.
+
+Lemma lookup_in key st v : lookup key st = Some v -> In (key, v) st.
+Proof.
+  induction st as [|[k' v'] t IH]; cbn; [discriminate|].
+  destruct (list_eqb N.eqb key k') eqn:E.
+  - intro H. inversion H; subst. apply CacheKey.eqb_bytes_iff in E. subst. now left.
+  - intro H. right. auto.
+Qed.
+
+Lemma msg_key_single q key qu :
+  msg_key q = Some key -> m_question q = [qu] -> key = CacheKey.key_of (m_ad q) (m_cd q) (msg_do q) qu.
+Proof.
+  unfold msg_key. intros H E. rewrite E in H.
+  destruct (m_qr q || negb (m_opcode q =? opcode_query) || negb (length [qu] =? 1)%nat); [discriminate|].
+  inversion H. reflexivity.
+Qed.
+
+Lemma name_eqb_false a b : name_eqb a b = false -> a <> b.
+Proof. intros H E. subst. rewrite name_eqb_refl in H. discriminate. Qed.
+
+Definition is_some {A} (o : option A) : bool := match o with Some _ => true | None => false end.
+
+Ltac split5 := refine (conj _ (conj _ (conj _ (conj _ _)))).
+
+Section C03Inv.
+  Variable ups : N -> msg -> option msg.
+  Variable clock : N -> option N.
+  Variable xp : N -> xplugin.
+  Variable wp : N -> wplugin.
+  Variable mp : N -> matcher.
+  (** the client's id, question type and class, and whether it sent an OPT *)
+  Variable id0 ty0 cl0 : N.
+  Variable ho : bool.
+  Hypothesis Hty : ty0 < 65536.
+  Hypothesis Hcl : cl0 < 65536.
+
+  (** The upstreams echo the question: a reply has QR set and the id and
+      question of the message it answers. *)
+  Hypothesis ups_echo : forall u q r, ups u q = Some r ->
+    m_id r = m_id q /\ m_question r = m_question q /\ m_qr r = true.
+
+  (** A response in the context: the client's id, QR, and the client's
+      question up to the name, which is one of the names on the stack of
+      enclosing redirects. *)
+  Definition resp_ok (names : list bytes) (r : msg) : Prop :=
+    m_id r = id0 /\ m_qr r = true /\ exists n, m_question r = [mkqu n ty0 cl0] /\ In n names.
+
+  (** Every cache entry answers the question its key was built from. *)
+  Definition store_ok (w : world) : Prop :=
+    forall i k v, In (k, v) (w_store w i) ->
+      m_qr v = true /\ exists a c d qu, k = CacheKey.key_of a c d qu /\ m_question v = [qu] /\ CacheKey.wf_question qu.
+
+  (** index: the current query name and the names below it on the stack *)
+  Definition inv03 (x : bytes * list bytes) (s : state) : Prop :=
+    m_id (c_query (fst s)) = id0 /\ m_question (c_query (fst s)) = [mkqu (fst x) ty0 cl0]
+    /\ (forall r, c_resp (fst s) = Some r -> resp_ok (fst x :: snd x) r)
+    /\ is_some (c_resp_opt (fst s)) = ho
+    /\ store_ok (snd s).
+
+  Lemma inv03_frame s s' :
+    m_id (c_query (fst s')) = m_id (c_query (fst s)) -> m_question (c_query (fst s')) = m_question (c_query (fst s)) ->
+    c_resp (fst s') = c_resp (fst s) -> c_resp_opt (fst s') = c_resp_opt (fst s) -> w_store (snd s') = w_store (snd s) ->
+    forall x, inv03 x s -> inv03 x s'.
+  Proof.
+    intros E1 E2 E3 E4 E5 x (H1 & H2 & H3 & H4 & H5). unfold inv03, store_ok in *.
+    rewrite E1, E2, E3, E4, E5. auto.
+  Qed.
+
+  (** SetResponse with a message that has the query's id and question *)
+  Lemma set_fresh_inv03 s m x :
+    m_id m = m_id (c_query (fst s)) -> m_qr m = true -> m_question m = firstn 1 (m_question (c_query (fst s))) ->
+    inv03 x s -> inv03 x (set_fresh s m).
+  Proof.
+    destruct s as [c w]. intros E1 E2 E3 (H1 & H2 & H3 & H4 & H5). unfold set_fresh.
+    destruct (set_response_fields c (w_next w) m) as (F1 & _ & _ & F4 & _).
+    unfold inv03. cbn [fst snd] in *. rewrite F1, F4. split5; try assumption.
+    intros r H. destruct (set_response_resp _ _ _ _ H) as (G1 & G2 & G3 & _).
+    split; [congruence|]. split; [congruence|]. exists (fst x). split; [|now left].
+    rewrite G3, E3, H2. reflexivity.
+  Qed.
+
+  Lemma exec_x_inv03 p x s : inv03 x s -> inv03 x (fst (exec_x ups p s)).
+  Proof.
+    intro H. destruct s as [c w]. destruct p; cbn [exec_x].
+    - unfold set_opt. destruct (hosts_reply h (c_query c)) eqn:E; cbn [fst]; [|exact H].
+      destruct (hosts_reply_hdr _ _ _ E) as (E1 & E2 & E3). apply set_fresh_inv03; assumption.
+    - unfold set_opt. destruct (black_hole_reply v4 v6 (c_query c)) eqn:E; cbn [fst]; [|exact H].
+      destruct (black_hole_reply_hdr _ _ _ _ E) as (E1 & E2 & E3). apply set_fresh_inv03; assumption.
+    - unfold set_opt. destruct (arbitrary_reply z (c_query c)) eqn:E; cbn [fst]; [|exact H].
+      destruct (arbitrary_reply_hdr _ _ _ E) as (E1 & E2 & E3). apply set_fresh_inv03; assumption.
+    - destruct (c_resp c) as [r|] eqn:Er; cbn [fst]; [|exact H].
+      destruct H as (H1 & H2 & H3 & H4 & H5). split5; try assumption.
+      cbn. intros r0 H. inversion H; subst r0. destruct (ttl_apply_header fix_ mn mx r) as (G1 & G2 & G3 & _).
+      destruct (H3 r Er) as (R1 & R2 & n & R3 & R4). unfold resp_ok. rewrite G1, G2, G3. eauto.
+    - assert (H' : inv03 x (c, log_up w u (wire (c_query c)))) by (revert H; apply inv03_frame; reflexivity).
+      destruct (ups u (wire (c_query c))) as [r|] eqn:Eu; cbn [fst]; [|exact H'].
+      destruct (ups_echo _ _ _ Eu) as (E1 & E2 & E3). destruct (wire_fields (c_query c)) as (W1 & W2 & _).
+      apply set_fresh_inv03; cbn [fst]; try assumption; [congruence|].
+      rewrite E2, W2. destruct H as (_ & H2 & _). cbn in H2. rewrite H2. reflexivity.
+    - cbn [fst]. destruct H as (H1 & H2 & H3 & H4 & H5). split5; try assumption. cbn. discriminate.
+  Qed.
+
+  Lemma reject_x_inv03 rc x s : inv03 x s -> inv03 x (reject_x rc s).
+  Proof. intro H. unfold reject_x. apply set_fresh_inv03; try reflexivity. exact H. Qed.
+
+  Lemma cache_inv03 inst k : okk inv03 k -> okk inv03 (cache_exec clock inst k).
+  Proof.
+    intros Hk x [c w] Hs. unfold cache_exec.
+    destruct (msg_key (c_query c)) as [key|] eqn:Ek; [|apply Hk; exact Hs].
+    pose proof Hs as (S1 & S2 & S3 & S4 & S5). cbn [fst snd] in *.
+    pose proof (msg_key_single _ _ _ Ek S2) as Ekey.
+    set (c1 := match get_cached clock key (w_store w inst) (w_next w) with
+               | Some r => set_response c (w_next w) (with_id r (m_id (c_query c)))
+               | None => c end).
+    assert (H1 : inv03 x (c1, bump w)).
+    { subst c1. destruct (get_cached clock key (w_store w inst) (w_next w)) as [r|] eqn:Eg;
+        [|revert Hs; apply inv03_frame; reflexivity].
+      unfold get_cached in Eg. destruct (lookup key (w_store w inst)) as [v|] eqn:El; [|discriminate].
+      destruct (clock (w_next w)) as [d|]; [|discriminate]. inversion Eg; subst r. clear Eg.
+      apply lookup_in in El. destruct (S5 _ _ _ El) as (V1 & a & cc & dd & qu & V2 & V3 & V4).
+      assert (Equ : qu = mkqu (fst x) ty0 cl0).
+      { rewrite V2 in Ekey. apply CacheKey.key_of_inj in Ekey; [|exact V4|split; assumption].
+        destruct Ekey as (_ & _ & _ & N1 & N2 & N3). destruct qu; cbn in *. congruence. }
+      change (inv03 x (set_fresh (c, w) (with_id (subtract_ttl d v) (m_id (c_query c))))).
+      apply set_fresh_inv03; cbn; try assumption; [reflexivity|]. rewrite V3, S2, Equ. reflexivity. }
+    specialize (Hk x _ H1). destruct (k (c1, bump w)) as [[t [c2 w2]] err]. unfold ost in *. cbn [fst snd] in *.
+    destruct (c_resp c2) as [r|] eqn:Er; [|exact Hk].
+    match goal with |- context [if ?b then _ else _] => destruct b eqn:Eb end; [|exact Hk].
+    destruct Hk as (K1 & K2 & K3 & K4 & K5). split5; try assumption.
+    apply andb_true_iff in Eb as [_ Ea]. unfold save. destruct (0 <? save_ttl r); [|exact K5].
+    intros i k0 v. unfold put_store. cbn. destruct (i =? inst) eqn:Ei; [|apply K5].
+    intros [Hin|Hin]; [|apply N.eqb_eq in Ei; subst; eapply K5; exact Hin].
+    inversion Hin; subst k0 v. destruct (K3 r Er) as (R1 & R2 & n & R3 & R4). cbn. split; [exact R2|].
+    unfold answers_question in Ea. cbn [fst] in K2. rewrite R3, K2 in Ea. apply question_eqb_true in Ea.
+    exists (m_ad (c_query c)), (m_cd (c_query c)), (msg_do (c_query c)), (mkqu (fst x) ty0 cl0).
+    split; [exact Ekey|]. split; [rewrite R3, Ea; reflexivity | split; assumption].
+  Qed.
+
+  Lemma set_q0_name_fields q n qu t :
+    m_question q = qu :: t ->
+    m_id (set_q0_name q n) = m_id q /\ m_question (set_q0_name q n) = mkqu n (qtype qu) (qclass qu) :: t.
+  Proof. intro E. unfold set_q0_name. rewrite E. repeat split. Qed.
+
+  Lemma redirect_inv03 f k : okk inv03 k -> okk inv03 (redirect_exec f k).
+  Proof.
+    intros Hk x [c w] Hs. unfold redirect_exec.
+    pose proof Hs as (S1 & S2 & S3 & S4 & S5). cbn [fst snd] in *. rewrite S2.
+    destruct (negb (qclass (mkqu (fst x) ty0 cl0) =? class_inet)); [apply Hk; exact Hs|].
+    cbn [qname]. destruct (f (fst x)) as [tgt|]; [|apply Hk; exact Hs].
+    destruct (set_q0_name_fields (c_query c) tgt _ _ S2) as (Q1 & Q2). cbn [qtype qclass] in Q2.
+    assert (H1 : inv03 (tgt, fst x :: snd x) (with_query c (set_q0_name (c_query c) tgt), w)).
+    { unfold inv03. cbn [fst snd with_query c_query c_resp c_resp_opt]. split5; try assumption; try congruence.
+      intros r H. destruct (S3 r H) as (R1 & R2 & n & R3 & R4). split; [exact R1|]. split; [exact R2|].
+      exists n. split; [exact R3 | now right]. }
+    specialize (Hk _ _ H1). destruct (k (with_query c (set_q0_name (c_query c) tgt), w)) as [[t [c2 w2]] err].
+    unfold ost in *. cbn [fst snd] in *. destruct Hk as (K1 & K2 & K3 & K4 & K5).
+    set (c3 := match c_resp c2 with
+               | Some r => with_resp_inplace c2
+                   (with_answer (with_question r (map (rename_question tgt (fst x)) (m_question r)))
+                      (RR (fst x) type_cname class_inet 1 (RName tgt)
+                       :: m_answer (with_question r (map (rename_question tgt (fst x)) (m_question r)))))
+               | None => c2 end).
+    assert (C3q : c_query c3 = c_query c2) by (subst c3; destruct (c_resp c2); reflexivity).
+    assert (C3o : c_resp_opt c3 = c_resp_opt c2) by (subst c3; destruct (c_resp c2); reflexivity).
+    destruct (set_q0_name_fields (c_query c3) (fst x) _ _ (eq_trans (f_equal m_question C3q) K2)) as (Q3 & Q4).
+    cbn [qtype qclass] in Q4.
+    unfold inv03. cbn [fst snd with_query c_query c_resp c_resp_opt]. rewrite Q3, Q4, C3q, C3o.
+    split5; try assumption; try reflexivity.
+    intros r H. subst c3. destruct (c_resp c2) as [r2|] eqn:Er; [|rewrite Er in H; discriminate].
+    cbn in H. inversion H; subst r. destruct (K3 r2 eq_refl) as (R1 & R2 & n & R3 & R4).
+    split; [exact R1|]. split; [exact R2|]. cbn.
+    rewrite R3. cbn. unfold rename_question. cbn [qname qtype qclass].
+    destruct (name_eqb n tgt) eqn:En.
+    - exists (fst x). split; [reflexivity | now left].
+    - exists n. split; [reflexivity|]. apply name_eqb_false in En.
+      destruct R4 as [R4|R4]; [congruence | exact R4].
+  Qed.
+
+  Lemma resp_add_opts_inv03 c w es x : inv03 x (c, w) -> inv03 x (resp_add_opts c es, w).
+  Proof.
+    intros (H1 & H2 & H3 & H4 & H5). destruct (resp_add_opts_frame c es) as (_ & _ & E3 & E4 & _).
+    unfold inv03. cbn [fst snd] in *. rewrite E3, E4. split5; try assumption.
+    unfold resp_add_opts. destruct (c_resp_opt c); exact H4.
+  Qed.
+
+  Lemma ecs_inv03 fwd send preset m4 m6 k : okk inv03 k -> okk inv03 (ecs_exec fwd send preset m4 m6 k).
+  Proof.
+    intros Hk x [c wd] Hs. unfold ecs_exec.
+    destruct (add_ecs fwd send preset m4 m6 c) as [[c1 forwarded]|] eqn:Ha; [|exact Hs].
+    assert (H1 : inv03 x (c1, wd)).
+    { destruct (add_ecs_frame _ _ _ _ _ _ _ _ Ha) as (_ & E2 & _ & E4 & _ & E6 & E7).
+      revert Hs. apply inv03_frame; cbn; congruence. }
+    specialize (Hk x _ H1). destruct (k (c1, wd)) as [[t [c2 w2]] err]. unfold ost in *. cbn [fst snd] in *.
+    destruct err; [exact Hk|]. destruct forwarded; [|exact Hk].
+    destruct (c_resp_opt c2) as [ro|] eqn:Ero; [|exact Hk]. destruct (c_upstream_opt c2) as [uo|]; [|exact Hk].
+    destruct (first_code ecs_code (o_opts uo)); [|exact Hk].
+    apply resp_add_opts_inv03. exact Hk.
+  Qed.
+
+  Lemma fwdopt_inv03 codes k : okk inv03 k -> okk inv03 (fwdopt_exec codes k).
+  Proof.
+    intros Hk x [c wd] Hs. unfold fwdopt_exec.
+    destruct (q_opt c); [|exact Hs].
+    assert (H1 : inv03 x (match c_client_opt c with
+                          | Some co0 => q_add_opts c (pick_codes codes (o_opts co0))
+                          | None => c end, wd)).
+    { destruct (c_client_opt c) as [co0|]; [|exact Hs].
+      destruct (q_add_opts_fields c (pick_codes codes (o_opts co0))) as (_ & _ & E3 & E4 & _ & _ & E7 & E8).
+      revert Hs. apply inv03_frame; cbn; congruence. }
+    specialize (Hk x _ H1).
+    destruct (k (match c_client_opt c with
+                 | Some co0 => q_add_opts c (pick_codes codes (o_opts co0))
+                 | None => c end, wd)) as [[t [c2 w2]] err].
+    unfold ost in *. cbn [fst snd] in *.
+    destruct err; [exact Hk|]. destruct (c_upstream_opt c2) as [uo|]; [|exact Hk].
+    destruct (c_resp_opt c2); [|exact Hk]. apply resp_add_opts_inv03. exact Hk.
+  Qed.
+
+  Lemma wrap_w_inv03 w k : okk inv03 k -> okk inv03 (wrap_w clock (wp w) k).
+  Proof.
+    intro Hk. destruct (wp w); cbn [wrap_w].
+    - apply cache_inv03; exact Hk.
+    - apply redirect_inv03; exact Hk.
+    - apply ecs_inv03; exact Hk.
+    - apply fwdopt_inv03; exact Hk.
+  Qed.
+
+  Lemma entry_inv03 prog x s : inv03 x s -> inv03 x (fst (entry ups clock xp wp mp prog s)).
+  Proof.
+    intro H. unfold entry.
+    pose proof (run_seq_ok state (plug_env ups clock xp wp mp) _ inv03
+                  (fun e => exec_x_inv03 (xp e)) reject_x_inv03 (fun w => wrap_w_inv03 w) prog x s H) as R.
+    destruct (run_seq (plug_env ups clock xp wp mp) prog s) as [[t s'] err]. exact R.
+  Qed.
+End C03Inv.
